@@ -136,26 +136,25 @@ Section Open.
   Lemma groups_body_unfold g gs names success failure s :
     names_of (g :: gs) = Some names ->
     groups_body (g :: gs) success failure s =
-    match main_part names success s with
-    | (ORaise (RExn n m e), s1) =>
-        match failure with
-        | Some fg =>
-            match fg with
-            | "" => (ORaise (RExn n m e), s1)
-            | _ =>
-                match run_failure fg s1 with
-                | (ORaise (RSig SStopStepGroup), s2) => (OOk, s2)
-                | (OOk, s2) => (ORaise (RExn n m e), s2)
-                | r => r
-                end
-            end
-        | None => (ORaise (RExn n m e), s1)
-        end
-    | r => r
-    end.
+    let (o, s1) := main_part names success s in
+    if is_error o then
+      match failure with
+      | Some fg =>
+          match fg with
+          | "" => (o, s1)
+          | _ =>
+              match run_failure fg s1 with
+              | (ORaise (RSig SStopStepGroup), s2) => (OOk, s2)
+              | (OOk, s2) => (o, s2)
+              | r => r
+              end
+          end
+      | None => (o, s1)
+      end
+    else (o, s1).
   Proof.
     intros Hn. unfold groups_body, main_part. rewrite Hn.
-    destruct (andthen (run_group_seq names s) _) as [[|[n m e|sg]|c|] s1]; reflexivity.
+    destruct (andthen (run_group_seq names s) _) as [o s1]. reflexivity.
   Qed.
 
   (** success group runs after all requested groups completed, and only then *)
@@ -176,7 +175,8 @@ Section Open.
     groups_body (g :: gs) success (Some fg) s =
     match run_group fg true s1 with
     | (ORaise (RSig SStopStepGroup), s2) => (OOk, s2)          (* quiet end *)
-    | (ORaise (RSig sg), s2) => (ORaise (RSig sg), s2)         (* Stop / StopPipeline *)
+    | (ORaise (RSig SStop), s2) => (ORaise (RSig SStop), s2)
+    | (ORaise (RSig SStopPipeline), s2) => (ORaise (RSig SStopPipeline), s2)
     | (OUnsup, s2) => (OUnsup, s2)
     | (_, s2) => (ORaise (RExn n m e), s2)                     (* the ORIGINAL error *)
     end.
@@ -1148,7 +1148,7 @@ Section Invariant.
   Proof.
     intros s0 s H. unfold run_failure.
     pose proof (good_run_group g true s0 s H) as G.
-    destruct (run_group lib rg rp g true s) as [[|[n m e|sg]|c|] s1]; exact G.
+    destruct (run_group lib rg rp g true s) as [[|[n m e|[| | |c|c]]|c|] s1]; exact G.
   Qed.
 
   Lemma good_groups_body gs su fa : good (groups_body lib rg rp gs su fa).
@@ -1161,7 +1161,8 @@ Section Invariant.
                             | None => (OOk, s1) end)))).
     { apply ext_andthen; [now apply good_run_group_seq|intros s1 H1].
       destruct su as [[|]|]; auto. now apply good_run_group. }
-    destruct (andthen _ _) as [[|[n m e|sg]|c|] s1]; simpl in G |- *; auto.
+    destruct (andthen _ _) as [o s1]; simpl in G |- *.
+    destruct (is_error o); auto.
     destruct fa as [[|a fg]|]; auto.
     pose proof (good_run_failure (String a fg) s0 s1 G) as G2.
     destruct (run_failure lib rg rp (String a fg) s1) as [[|[n' m' e'|[| | |c|c]]|c|] s2]; exact G2.
